@@ -10,10 +10,12 @@
 (*                   it is not Open and not yet marked down: push on the   *)
 (*                   downq, load += Penalty, FixDown(1), loop), load += 1, *)
 (*                   FixDown(index), push the put-closure                  *)
-(*   Put(n, j)       completion of a request held by node n (the balancer's *)
-(*                   frame is popped from the sink stack and PutWrapper    *)
-(*                   runs): __Put with its four branches; j is the value   *)
-(*                   of random.randint(1, size) of the idle re-insertion   *)
+(*   Put(n, j, kind) completion (reply / error / timeout drain / fault: all *)
+(*                   the same to the balancer) of a request held by node n: *)
+(*                   the balancer's frame is popped from the sink stack and *)
+(*                   PutWrapper runs __Put with its four branches; j is the *)
+(*                   value of random.randint(1, size) of the idle           *)
+(*                   re-insertion; kind = "timeout" leaves a late arrival   *)
 (*   LateArrive(n)   a late reply for a request whose stack was already    *)
 (*                   drained: the stack is empty, nothing runs             *)
 (*   AddSink(e) / JoinDup(e)        on_join -> __AddServer -> _AddSink     *)
@@ -31,8 +33,10 @@
 (*   TRUE   with fixes/C03-heap-fixup.diff: additionally FixUp(i) when     *)
 (*          i # size                                                       *)
 (* The property-level machine BalancerAbs runs in lock-step on the ghost   *)
-(* variable `abs`, fed with the same event records the harness logs;       *)
-(* `viol` records the first failing clause.                                *)
+(* variable `abs`, fed with the same event records the harness logs (each  *)
+(* step ends with End{projection} and, everything being synchronous, a     *)
+(* quiescent point Q{heap endpoints}); `viol` records the first failing    *)
+(* clause.                                                                 *)
 (***************************************************************************)
 EXTENDS BalancerAbs
 
@@ -46,7 +50,7 @@ CONSTANTS MaxNodes,   \* node objects that may ever be created
           Membership, \* joins and leaves happen
           TrackLate,  \* timeouts leave a late arrival behind
           Noise,      \* duplicate joins and leaves of unknown endpoints happen (no-ops for the heap)
-          Light       \* TRUE: no End events (projection clauses are then covered by the
+          Light       \* TRUE: no End / Q events (the projection clauses are then covered by the
                       \* invariant Structural only); for the large dispatch/completion configs
 
 \* without End events the down marks are never reported to the Abs machine, which the
